@@ -13,7 +13,7 @@ use std::collections::{BTreeMap, BTreeSet, HashMap, HashSet};
 use std::path::Path;
 use std::time::Instant;
 
-fn op_key(op: &Value) -> String {
+pub fn op_key(op: &Value) -> String {
     let mut o = op.clone();
     if let Some(m) = o.as_object_mut() {
         m.remove("want_text");
@@ -21,7 +21,7 @@ fn op_key(op: &Value) -> String {
     serde_json::to_string(&o).unwrap()
 }
 
-fn env_of(hash_seed: u64, fake_time: Option<u64>) -> Vec<(String, String)> {
+pub fn env_of(hash_seed: u64, fake_time: Option<u64>) -> Vec<(String, String)> {
     let mut e = vec![("VERIF_HASH_SEED".to_string(), hash_seed.to_string())];
     if let Some(t) = fake_time {
         e.push(("VERIF_FAKE_TIME".to_string(), t.to_string()));
@@ -194,7 +194,7 @@ fn judge(case: &Case, o: &Outcome, refs: &HashMap<String, (String, String)>) -> 
     out
 }
 
-fn compute_refs(ops: &[Value], scratch: &Path) -> HashMap<String, (String, String)> {
+pub fn compute_refs(ops: &[Value], scratch: &Path) -> HashMap<String, (String, String)> {
     let mut uniq: Vec<Value> = vec![];
     let mut seen = HashSet::new();
     for op in ops {
